@@ -175,6 +175,10 @@ def materialise_check(np, g, a, b, n, which):
         arr = np.asarray(g.to_jax(), dtype=float)
     except Exception as e:  # noqa: BLE001
         return f"to_jax() raised {type(e).__name__}: {str(e)[:100]}"
+    raw = np.asarray(g.to_jax())
+    # bool bounds make jnp compute in float32 even under x64: the oracle's tolerance follows the dtype of the result
+    f32 = raw.dtype == np.float32
+    e0, e1, e2 = (2e-6, 2e-6, 1e-4) if f32 else (1e-12, 1e-9, 1e-7)
     n = int(n)
     if arr.shape != (n,):
         return f"shape {arr.shape}, expected ({n},)"
@@ -182,12 +186,12 @@ def materialise_check(np, g, a, b, n, which):
         return f"non-finite values {arr.tolist()[:6]}"
     if n >= 2 and not np.all(np.diff(arr) > 0):
         return f"not strictly increasing: {arr.tolist()[:6]}"
-    if abs(arr[0] - float(a)) > 1e-12 * max(1.0, abs(float(a))):
+    if abs(arr[0] - float(a)) > e0 * max(1.0, abs(float(a))):
         return f"first element {arr[0]} != start {a}"
-    if n >= 2 and abs(arr[-1] - float(b)) > 1e-9 * max(1.0, abs(float(b))):
+    if n >= 2 and abs(arr[-1] - float(b)) > e1 * max(1.0, abs(float(b))):
         return f"last element {arr[-1]} != stop {b}"
     if n >= 3:
         d = np.diff(arr) if which == "lin" else np.diff(np.log(arr))
-        if np.max(np.abs(d - d.mean())) > 1e-7 * max(1e-300, abs(d.mean())):
+        if np.max(np.abs(d - d.mean())) > e2 * max(1e-300, abs(d.mean())):
             return f"not equally spaced on the {'linear' if which == 'lin' else 'logarithmic'} scale: {arr.tolist()[:6]}"
     return None
